@@ -39,7 +39,7 @@ PROOF_FAILURE_PATTERNS = (
     "could not prove termination", "might not be allowed", "unable to prove", "fails to satisfy",
 )
 LOG_MACROS = ("trace", "debug", "info", "warn", "error")
-SUBST_KINDS = ("closure-contract", "std-wrap", "std-wrap-all", "verus-syntax", "split-or-guard", "for-ghost-iter", "assoc-type", "eta-ctor", "enumerate-iter-mut", "enumerate-iter", "iter-map-collect", "name-impl-trait")
+SUBST_KINDS = ("closure-contract", "std-wrap", "std-wrap-all", "verus-syntax", "split-or-guard", "for-ghost-iter", "assoc-type", "eta-ctor", "enumerate-iter-mut", "enumerate-iter", "iter-map-collect", "name-impl-trait", "then-transpose")
 
 
 class ExtractError(Exception):
@@ -205,8 +205,19 @@ def _apply_closure(whole, n, header, tr):
     if not mh:
         raise ExtractError("CLOSURE: header must look like |p: T| -> (b: R) ensures ...")
     names_hdr = [q.split(":")[0].strip() for q in _split_top(mh.group(2)) if q.strip()]
-    if [x.lstrip("&").replace("mut ", "").strip() for x in names_src] != names_hdr:
-        raise ExtractError(f"lost anchor: closure #{n} parameters {names_src} != contract's {names_hdr}")
+    plain_src = [x.lstrip("&").replace("mut ", "").strip() for x in names_src]
+    if plain_src != names_hdr:
+        # the source's parameter names win: alpha-rename the contract's (same arity, plain identifiers, no capture)
+        ok = len(plain_src) == len(names_hdr) and all(re.fullmatch(r"[a-z_][a-z0-9_]*", x) for x in plain_src + names_hdr)
+        if ok:
+            for a, b in zip(names_hdr, plain_src):
+                if a != b and re.search(r"\b%s\b" % re.escape(b), header):
+                    ok = False
+        if not ok:
+            raise ExtractError(f"lost anchor: closure #{n} parameters {names_src} != contract's {names_hdr}")
+        for a, b in zip(names_hdr, plain_src):
+            header = re.sub(r"\b%s\b" % re.escape(a), b, header)
+        tr.append({"kind": "closure-contract-rename", "closure": n, "from": names_hdr, "to": plain_src})
     body = whole[bs:be].strip()
     if body.startswith("{") and body.endswith("}"):
         new = header.strip() + " " + body
@@ -281,6 +292,14 @@ def _validate_subst(kind, old, new, template_text):
                 raise ExtractError("name-impl-trait: a named generic must replace exactly one `impl Bound`")
         if rustscan.norm_ws(m.group(1) + "(" + back).replace(" ", "") != rustscan.norm_ws(old).replace(" ", ""):
             raise ExtractError("name-impl-trait: re-anonymised replacement differs from the original signature text")
+    elif kind == "then-transpose":
+        # `C.then(|| E).transpose()?`  ->  `if C { Some(E?) } else { None }`  (bool::then runs the closure iff C; transpose
+        # turns Some(Err(e)) into Err(e), which `?` returns through the same From conversion as `E?` does)
+        mo = re.match(r"^(\w+)\s*\.then\(\s*\|\|\s*(.+?)\s*\)\s*\.transpose\(\)\s*\?$", rustscan.norm_ws(old), re.S)
+        mn = re.match(r"^if\s+(\w+)\s*\{\s*Some\(\s*(.+?)\s*\?\s*\)\s*\}\s*else\s*\{\s*None\s*\}$", rustscan.norm_ws(new), re.S)
+        strip = lambda t: re.sub(r"\s+", "", t)
+        if not mo or not mn or mo.group(1) != mn.group(1) or strip(mo.group(2)) != strip(mn.group(2)):
+            raise ExtractError("then-transpose: shapes do not correspond")
     elif kind == "for-ghost-iter":
         # `for PAT in EXPR` -> `for PAT' in NAME: EXPR` where PAT' is PAT or `_x` for `_` (names the loop's ghost iterator)
         mo = re.match(r"^for\s+(\S+|\([^)]*\))\s+in\s+(.+)$", old.strip(), re.S)
